@@ -295,11 +295,27 @@ func (fe *FnExec) applyContract(st *State, in ssa.Instruction, ci calleeInfo, al
 	}
 	post := &Env{fe: fe, st: st, old: pre, vars: vars, pkg: cc.Pkg, qn: &fe.qn}
 	for i, cl := range cc.Ensures {
+		if internalClause(cl.Text) {
+			// speaks about the callee's own call trace: checked there, not visible here
+			continue
+		}
 		t, err := post.evalBool(cl.E)
 		if err != nil {
 			fe.fail("%s: ensures#%d of %s (%s): %v", fe.pos(in.Pos()), i+1, ci.desc, cl.Text, err)
 		}
 		st.assume(t, fmt.Sprintf("ensures of %s: %s", ci.short, cl.Text))
+	}
+	st.callCnt[ci.short]++
+	{
+		rec := callRec{args: all, argT: ci.ptypes, res: res}
+		if res != nil {
+			if ci.results.Len() == 1 {
+				rec.resT = ci.results.At(0).Type()
+			} else {
+				rec.resT = ci.results
+			}
+		}
+		st.callLog[fmt.Sprintf("%s#%d", ci.short, st.callCnt[ci.short])] = rec
 	}
 	for _, cg := range fe.C.CallGhosts {
 		if cg.Callee == ci.short && cg.Ordinal == ord && cg.Kind == "bind" && res != nil {
@@ -631,6 +647,10 @@ func (fe *FnExec) doReturn(st *State, x *ssa.Return) {
 		}
 		fe.assert(st, t, fmt.Sprintf("ensures#%d", i+1), "ensures", tags, cl.Text, x.Pos())
 	}
+}
+
+func internalClause(text string) bool {
+	return strings.Contains(text, "ncalls(") || strings.Contains(text, "callarg(") || strings.Contains(text, "callres(")
 }
 
 var _ = sort.Strings
